@@ -12,7 +12,11 @@ EXPLANATION = (
     "_clip_to_desired_rounds, _calc_vary_rounds_range (int variation), _generate_rounds (fresh rounds never need an update "
     "under the policy invariant), HasRounds._calc_needs_update, bsdi_crypt's overrides; context-level decisions "
     "(first claimant, default per category, deprecated, verify_and_update shape) are compared with a policy oracle on "
-    "generated configurations (bounded stand-in)."
+    "generated configurations (bounded stand-in); proved in addition, with the contents of the scheme lists abstract: "
+    "_CryptConfig.is_deprecated_with_flag (own list else the default category's; 'auto' = all but that category's default, through "
+    "the real default_scheme), _init_default_schemes (explicit default never deprecated, else first non-deprecated scheme, the "
+    "category inheriting the explicit global default), CryptContext.needs_update == deprecated or flagged, CryptContext.hash uses the "
+    "record of the category's default scheme, _create_record stores the deprecated flag on the customised copy only."
 )
 ASSUMPTIONS = [
     "rng.randint(a, b) returns a value in [a, b]",
